@@ -109,7 +109,13 @@ template <class Json> struct Pool {
                           if (e) { if (mv_dump(mv_from_json(cj.at(key)), false) != mv_dump(*e, false) || mv_dump(mv_from_json(cj[key]), false) != mv_dump(*e, false) || mv_dump(mv_from_json(it->value()), false) != mv_dump(*e, false)) H.violation(std::string("container/") + name + "/lookup-value", J().str("key", key).done()); }
                           else { bool threw = false; try { (void)cj.at(key); } catch (const json_exception&) { threw = true; } if (!threw) H.violation(std::string("container/") + name + "/at-missing-key-no-throw", J().str("key", key).done()); }
                           op = "lookup " + key; break; }
-                case 8: { jp->clear(); mp->o.clear(); op = "clear-object"; break; }
+                case 8: { if (r.coin()) { jp->clear(); mp->o.clear(); op = "clear-object"; break; }
+                          // range insert: existing members are kept, the first of equal names in the range wins (sizes beyond 16 entries: sort stability)
+                          size_t n = r.coin() ? r.below(7) : 14 + r.below(20); std::vector<std::pair<std::string, Json>> items; std::vector<std::pair<std::string, MV>> mitems;
+                          for (size_t q = 0; q < n; ++q) { std::string k2 = r.chance(1, 3) ? std::string(r.pick(KEYS)) : "rk" + std::to_string(r.below(n + 2)); MV v2 = gen_mv(r, g, 1); norm(v2); items.emplace_back(k2, mv_to_json<Json>(v2)); mitems.emplace_back(k2, v2); }
+                          jp->insert(items.begin(), items.end());
+                          for (auto& kv : mitems) if (!mp->find(kv.first)) mp->o.emplace_back(kv.first, kv.second);
+                          model_sort(*mp); op = "insert-range " + std::to_string(n); break; }
                 default: { (*jp)[key] = mv_to_json<Json>(val); MV* e = mp->find(key); if (e) *e = val; else { mp->o.emplace_back(key, val); model_sort(*mp); } op = "operator[]= " + key; break; }
                 }
             } else if (mp->k == MV::Arr) {
